@@ -275,3 +275,17 @@ Example C14_example_reorder_program :
   out_enc (exec 100 p_recv_reorder (st0 b 0 0 1 (mkPkt 2 20))) =
     ro_enc (RO [None; None; None; None] 3 0 [mkPkt 2 20; mkPkt 3 30; mkPkt 4 40] 0 KRun).
 Proof. exact reorder_program_example. Qed.
+
+(* ... and the hypotheses hold on every state the receiver can reach: with the buffer invariant of
+   C14_receiver_inv_reachable (BufInv: power-of-two size, slot absPos empty, slot absPos+j holds sequence last+1+j), a
+   counter 0 <= negativeCount <= len(buffer) and any packet with a uint16 sequence number, the model's reorder returns a
+   result (never a panic or an endless loop) and the translated program returns exactly that result. *)
+Theorem C14_receiver_reorder_program_on_reachable_states : forall b a ng L p,
+  BufInv b a L -> 0 <= ng <= bsize b -> wf p ->
+  exists b' a' ng' out l k, reorder b a ng L p = RO b' a' ng' out l k /\
+    (exists f0, forall f, (f0 <= f)%nat ->
+       out_enc (exec f p_recv_reorder (st0 b a ng L p)) = ro_enc (RO b' a' ng' out l k)) /\
+    (forall f, exec f p_recv_reorder (st0 b a ng L p) = OFuel \/
+       out_enc (exec f p_recv_reorder (st0 b a ng L p)) = ro_enc (RO b' a' ng' out l k)).
+Proof. exact reorder_program_on_reachable_states. Qed.
+Print Assumptions C14_receiver_reorder_program_on_reachable_states.
